@@ -492,16 +492,8 @@ class EraseTask(Task):
 def configure_erase(I):
     # children fold or not at the generator's discretion in both modes alike: keep them abstract
     I.specs["_AbsMap.discard"] = lambda I_, st, args, kwargs, node: [(st, None)]
-    import math
-    isfinite_fn = z3.Function("math.isfinite", OBJ_SORT, z3.BoolSort())
-
-    def isfinite(I_, st, args, kwargs, node):
-        a = args[0]
-        if isinstance(a, Sym) and a.k == "obj":
-            return [(st, Sym(isfinite_fn(a.t), "bool"))]
-        return [(st, math.isfinite(a))]
-
-    I.specs[("fn", id(math.isfinite))] = isfinite
+    from contracts.c08 import install_const_specs
+    install_const_specs(I)
 
 
 def name_node(st, path, nm, ctx="param"):
@@ -1585,7 +1577,8 @@ class SumVariant(Task):
                 r.name = "C09.variant.do_sum.async." + r.name.split(".")[-1]
             return rs
         out = []
-        for inner in (c22.AsyncSum(False), c22.AsyncSum(True)):
+        self._inner = c22.AsyncSum(False)
+        for inner in (self._inner, c22.AsyncSum(True)):
             for r in inner.run(tier, seed):
                 r.name = "C09.variant.do_sum.async." + r.name[len(inner.name):].lstrip(".")
                 out.append(r)
@@ -1593,9 +1586,15 @@ class SumVariant(Task):
 
     def finding_key(self, res):
         w = res.witness or {}
-        return "sum-lemma:" + w.get("lemma", "") if "lemma" in w else None
+        if "lemma" in w:
+            return "sum-lemma:" + w.get("lemma", "")
+        inner = getattr(self, "_inner", None)
+        return inner.finding_key(res) if inner is not None and hasattr(inner, "finding_key") else None
 
     def replay(self, w):
+        if "lemma" not in (w or {}):
+            from contracts import c22
+            return c22.AsyncSum(False).replay(w)
         return sum_lemma_replay(w)
 
 
